@@ -17,6 +17,9 @@ def gen_thread(rng, k, ng, nops, late, pscan):
             s = rng.randrange(k)
             ops.append("a%d%d" % (rng.randrange(ng), s))
             held.add(s)
+            if rng.random() < 0.5:
+                # hold the protection while the other threads retire and scan
+                ops.append("p%d" % rng.choice([3, 10, 30, 80]))
         elif r < 0.38 and held:
             ops.append("u%d" % rng.choice(sorted(held)))
         elif r < 0.48:
